@@ -1010,37 +1010,27 @@ impl From<token::Ident> for Ident {
 }
 
 impl From<(&token::Ident, &token::Ident)> for Ident {
+    /// Name under which a function parameter is stored. No program can spell it.
+    /// It starts with the parameter's own name and ends with its type suffix, so
+    /// an undecorated parameter takes the default type of its own first letter.
     fn from(f: (&token::Ident, &token::Ident)) -> Self {
-        let mut string = match f.0 {
+        let fn_name = match f.0 {
             token::Ident::Plain(s) => s,
             token::Ident::String(s) => s,
             token::Ident::Single(s) => s,
             token::Ident::Double(s) => s,
             token::Ident::Integer(s) => s,
-        }
-        .to_string();
-        string.push('.');
+        };
+        let mangle = |param: &str, suffix: &str| -> std::rc::Rc<str> {
+            let base = param.strip_suffix(suffix).unwrap_or(param);
+            format!("{}.{}.{}", base, fn_name, suffix).into()
+        };
         match f.1 {
-            token::Ident::Plain(s) => Ident::Plain({
-                string.push_str(s);
-                string.into()
-            }),
-            token::Ident::String(s) => Ident::String({
-                string.push_str(s);
-                string.into()
-            }),
-            token::Ident::Single(s) => Ident::Single({
-                string.push_str(s);
-                string.into()
-            }),
-            token::Ident::Double(s) => Ident::Double({
-                string.push_str(s);
-                string.into()
-            }),
-            token::Ident::Integer(s) => Ident::Integer({
-                string.push_str(s);
-                string.into()
-            }),
+            token::Ident::Plain(s) => Ident::Plain(mangle(s, "")),
+            token::Ident::String(s) => Ident::String(mangle(s, "$")),
+            token::Ident::Single(s) => Ident::Single(mangle(s, "!")),
+            token::Ident::Double(s) => Ident::Double(mangle(s, "#")),
+            token::Ident::Integer(s) => Ident::Integer(mangle(s, "%")),
         }
     }
 }
